@@ -701,18 +701,11 @@ Proof.
       destruct (0 <? c_max_depth c) eqn:Ed.
       2:{ inversion Hr; subst. exists []. rewrite remove_nil. split; [reflexivity|]. split; [intros v []|]. intros N; contradiction. }
       apply Z.ltb_lt in Ed.
-      destruct single.
-      - destruct (c_max_depth c <=? active l1).
-        2:{ inversion Hr; subst. exists []. rewrite remove_nil. split; [reflexivity|]. split; [intros v []|]. intros N; contradiction. }
-        destruct (c_drop_oldest c) eqn:Edo; [|discriminate].
-        destruct (sql_victim (o_gone o) l1) as [v|] eqn:Ev; [|discriminate]. inversion Hr; subst.
-        exists [v]. split; [reflexivity|]. split; [|intros _; split; [reflexivity | exact Ed]].
-        intros w [Hw | []]. subst w. apply (sql_victim_spec (o_gone o)). exact Ev.
-      - destruct (c_drop_oldest c) eqn:Edo.
-        + destruct (sql_make_room_spec _ _ _ _ _ _ Hr) as [vs [E Q]]. exists vs. split; [exact E|]. split; [exact Q|].
-          intros _. split; [reflexivity | exact Ed].
-        + destruct (c_max_depth c <? active l1 + Z.of_nat (length ies)); [discriminate|]. inversion Hr; subst.
-          exists []. rewrite remove_nil. split; [reflexivity|]. split; [intros v []|]. intros N; contradiction. }
+      destruct (c_drop_oldest c) eqn:Edo.
+      - destruct (sql_make_room_spec _ _ _ _ _ _ Hr) as [vs [E Q]]. exists vs. split; [exact E|]. split; [exact Q|].
+        intros _. split; [reflexivity | exact Ed].
+      - destruct (c_max_depth c <? active l1 + Z.of_nat (length ies)); [discriminate|]. inversion Hr; subst.
+        exists []. rewrite remove_nil. split; [reflexivity|]. split; [intros v []|]. intros N; contradiction. }
     destruct room as [l2|] eqn:Er; [|inversion H; subst; apply Pruned].
     destruct (nodupN (map fst ies) && forallb (fun i => negb (has_id i l2)) (map fst ies)); [|inversion H; subst; apply Pruned].
     destruct (Hroom l2 eq_refl) as [vs [E [Q Hdrop]]]. subst l2.
